@@ -11,6 +11,15 @@ left on ANY signal of the scenario; tuple count; every analytical value = entry 
 sensitivity for the seed; every numerical value = the seed-weighted difference quotient recomputed independently (exact
 rationals); numerical value -> true derivative with O(dx) error via exact extrapolation; wrong adjoint <=> mismatch.
 The witnesses of the fixed findings F07, F24, F25, F26, F27 are corpus cases and regression probes.
+
+How a module hands out its values is a separate axis of the module family (spec keys omode / sfmt / alias / smode): a
+fresh object per response, ONE object kept and refreshed in place (dense, 0-d, sparse through `.data[:]`, sparse with a
+replaced `.data`), views of one internal buffer (contiguous, strided, transposed), the input itself or a view of it,
+Python scalars, sparse containers csr/csc/coo/lil/dok/dia/bsr (matrix and array flavours); sensitivities as fresh arrays,
+kept buffers, views of one buffer, or the seed itself. Model/FD.v is value-level: the Coq expression of a case never
+mentions these keys, so the correspondence demands that the routine reports for such modules exactly the tuples of a
+module that builds fresh objects; the oracle takes all its references from plain modules as well. A deterministic block
+(stress_scenarios) enumerates every hand-out mode x real/complex x three requests on every run.
 """
 import os, io, json, glob, copy, contextlib
 from fractions import Fraction
@@ -35,6 +44,11 @@ Definition rep_q (x : report) : list Q :=
   [this (fst (r_x0 x)); this (snd (r_x0 x)); this (r_dx x); this (r_an x); this (r_fd x)].
 Definition oval_q (o : option val) : option (list Q) := option_map (fun v => flat_map qk (v_dat v)) o.
 Definition oeq := option_eqb Ql_eqb.
+(* a state observation `Some []` stands for "not compared here": the state of an output that a pass-through module
+   hands out as a view of its input (it follows the restored input instead of keeping the last perturbed response;
+   the harness compares it with the unperturbed response instead). A real state has at least one entry. *)
+Definition steq (a b : option (list Q)) : bool :=
+  match b with Some nil => true | _ => oeq a b end.
 Definition check (res : fderr + fdresult) (err : Z) (reps : list (list Q))
            (sts ses seeds : list (option (list Q))) : bool :=
   match res with
@@ -42,7 +56,7 @@ Definition check (res : fderr + fdresult) (err : Z) (reps : list (list Q))
   | inl ENoOutput => Z.eqb err 2
   | inr x =>
       Z.eqb err 0 && Qll_eqb (map rep_q (f_reports x)) reps &&
-      list_eqb oeq (map (fun g => oval_q (st g)) (f_store x)) sts &&
+      list_eqb steq (map (fun g => oval_q (st g)) (f_store x)) sts &&
       list_eqb oeq (map (fun g => oval_q (se g)) (f_store x)) ses &&
       list_eqb oeq (map oval_q (f_seeds x)) seeds
   end.
@@ -128,12 +142,113 @@ def cast(M, dt):
     return a if dt is complex else a.real.astype(float)
 
 
+SPARSE_FMTS = {
+    'csr_matrix': sp.csr_matrix, 'csc_matrix': sp.csc_matrix, 'coo_matrix': sp.coo_matrix,
+    'csr_array': sp.csr_array, 'csc_array': sp.csc_array, 'coo_array': sp.coo_array,
+    'lil_matrix': sp.lil_matrix, 'dok_matrix': sp.dok_matrix, 'dia_matrix': sp.dia_matrix, 'bsr_matrix': sp.bsr_matrix,
+}
+INPLACE_FMTS = ('csr_matrix', 'csc_matrix', 'coo_matrix', 'csr_array', 'csc_array', 'coo_array')   # formats with a flat .data
+MODE_KEYS = ('omode', 'sfmt', 'alias', 'smode')
+
+
+def alias_view(x, how):
+    """the view of an input array that a pass-through module hands out as its output"""
+    if how == 'same':
+        return x
+    if how == 'rev':
+        return x[::-1]
+    if how == 'T':
+        return x.T
+    if how == 'ravel':
+        return x.reshape(-1)          # a view whenever numpy can make one
+    raise ValueError(how)
+
+
+def alias_matrix(shape, how):
+    """0/1 matrix P with vec(alias_view(x, how)) = P vec(x) (logical C order on both sides)"""
+    n = int(np.prod(shape)) if len(shape) else 1
+    ids = np.arange(n).reshape(shape)
+    sel = np.asarray(alias_view(ids, how)).ravel()
+    P = [[[0, 0] for _ in range(n)] for _ in range(n)]
+    for a, b in enumerate(sel):
+        P[a][int(b)] = [1, 0]
+    return P, list(np.asarray(alias_view(ids, how)).shape)
+
+
 def make_poly_class(pym):
     class Poly(pym.Module):
-        """y_j = c_j + sum_i A_ji x_i + sum_i Q_ji x_i^2 ; claimed adjoint uses B, Qb"""
+        """y_j = c_j + sum_i A_ji x_i + sum_i Q_ji x_i^2 ; claimed adjoint uses B, Qb.
+
+        HOW the values are handed out is a separate choice (it must not change anything finite_difference reports):
+        spec['omode'][j]: 'fresh' (default: a new object per response) | 'inplace' (ONE object per output, kept by the
+            module and refreshed in place: dense arrays, 0-d arrays, sparse matrices through `.data[:] = ...`) |
+            'swapdata' (one sparse object, `.data` replaced by a new array) | 'view' / 'view_strided' (views of one
+            internal buffer shared by all outputs; contiguous / strided resp. transposed) | 'pyscal' (Python float /
+            complex instead of a numpy scalar);
+        spec['sfmt'][j]: container of a sparse output (SPARSE_FMTS);
+        spec['alias'][j] = {'in': i, 'how': ..}: the output IS (a view of) input i (pass-through; the matrices say so);
+        spec['smode']: 'fresh' | 'buffer' (one sensitivity array per input kept by the module, refreshed in place) |
+            'view' (views of one internal buffer) | 'seedview' (pass-through: the (view of the) seed itself)."""
 
         def _prepare(self, spec=None):
             self.spec = spec
+            self._obuf, self._opat, self._sbuf = {}, {}, {}
+            self._big, self._sbig = None, None
+
+        def _opt(self, key, j):
+            v = self.spec.get(key)
+            return None if v is None else v[j]
+
+        def _big_view(self, j, m, shape, dtype, strided):
+            """view number j (m entries) of the one buffer shared by all outputs of this module"""
+            sizes = [len(cj) for cj in self.spec['c']]
+            if self._big is None or self._big.dtype != dtype:
+                self._big = np.zeros(sum(2 * n + 1 for n in sizes), dtype=dtype)
+            off = sum(2 * n + 1 for n in sizes[:j])
+            if not strided:
+                return self._big[off:off + m].reshape(shape)
+            if len(shape) == 2:
+                return self._big[off:off + m].reshape(shape[::-1]).T         # Fortran-ordered view
+            return self._big[off:off + 2 * m:2].reshape(shape)                # every second entry
+
+        def _emit(self, j, k, y, xs):
+            mode = self._opt('omode', j) or 'fresh'
+            al = self._opt('alias', j)
+            if al is not None and isinstance(xs[al['in']], np.ndarray):
+                return alias_view(xs[al['in']], al['how'])
+            if k == 'scal':
+                if mode == 'pyscal':
+                    return complex(y[0]) if np.iscomplexobj(y) else float(y[0])
+                return y[0]
+            if is_sparse_kind(k):
+                shape = tuple(k[1])
+                fmt = self._opt('sfmt', j) or 'csr_matrix'
+                Y = y.reshape(shape)
+                if mode in ('inplace', 'swapdata') and fmt in INPLACE_FMTS:
+                    K = self._obuf.get(j)
+                    if K is None or K.dtype != Y.dtype:
+                        K = self._obuf[j] = SPARSE_FMTS[fmt](np.ones(shape, dtype=Y.dtype))     # full, fixed pattern
+                        coo = K.tocoo(copy=True)
+                        self._opat[j] = (np.array(coo.row), np.array(coo.col))
+                    rows, cols = self._opat[j]
+                    if mode == 'inplace':
+                        K.data[:] = Y[rows, cols]
+                    else:
+                        K.data = np.array(Y[rows, cols])
+                    return K
+                return SPARSE_FMTS[fmt](Y)
+            shape = tuple(k)
+            if mode == 'inplace':
+                b = self._obuf.get(j)
+                if b is None or b.dtype != y.dtype:
+                    b = self._obuf[j] = np.zeros(shape, dtype=y.dtype)
+                b[...] = y.reshape(shape)
+                return b
+            if mode in ('view', 'view_strided'):
+                v = self._big_view(j, len(y), shape, y.dtype, mode == 'view_strided')
+                v[...] = y.reshape(shape)
+                return v
+            return y.reshape(shape)
 
         def _response(self, *xs):
             s = self.spec
@@ -144,14 +259,39 @@ def make_poly_class(pym):
                 for i, x in enumerate(xs):
                     xv = flat(x).astype(dt)
                     y = y + cast(s['A'][j][i], dt) @ xv + cast(s['Q'][j][i], dt) @ (xv * xv)
-                k = s['okind'][j]
-                if k == 'scal':
-                    out.append(y[0])
-                elif is_sparse_kind(k):
-                    out.append(sp.csr_matrix(y.reshape(k[1])))
-                else:
-                    out.append(y.reshape(k))
+                out.append(self._emit(j, s['okind'][j], y, xs))
             return out
+
+        def _hand_out(self, i, r, ws):
+            """r: the computed sensitivity of array input i; how it is handed out"""
+            smode = self.spec.get('smode') or 'fresh'
+            if smode == 'buffer':
+                b = self._sbuf.get(i)
+                if b is None or b.dtype != r.dtype or b.shape != r.shape:
+                    b = self._sbuf[i] = np.zeros(r.shape, dtype=r.dtype)
+                b[...] = r
+                return b
+            if smode == 'view':
+                sizes = [int(flat(sig.state).size) for sig in self.sig_in]
+                if self._sbig is None or self._sbig.dtype != r.dtype or self._sbig.size != sum(sizes) + len(sizes):
+                    self._sbig = np.zeros(sum(sizes) + len(sizes), dtype=r.dtype)
+                off = sum(sizes[:i]) + i
+                v = self._sbig[off:off + r.size].reshape(r.shape)
+                v[...] = r
+                return v
+            if smode == 'seedview':
+                for j, w in enumerate(ws):
+                    al = self._opt('alias', j)
+                    if al is None or al['in'] != i or not isinstance(w, np.ndarray):
+                        continue
+                    try:
+                        back = {'same': lambda a: a, 'rev': lambda a: a[::-1], 'T': lambda a: a.T,
+                                'ravel': lambda a: a.reshape(r.shape)}[al['how']](w)
+                    except ValueError:
+                        continue
+                    if back.shape == r.shape and back.dtype == r.dtype and np.array_equal(back, r):
+                        return back             # the seed itself (or a view of it): same values as computed
+            return r
 
         def _sensitivity(self, *ws):
             s = self.spec
@@ -168,13 +308,32 @@ def make_poly_class(pym):
                     wv = np.broadcast_to(np.asarray(w, dtype=dt).ravel(), (len(s['c'][j]),))
                     acc = acc + cast(s['B'][j][i], dt).T @ wv + 2 * xv * (cast(s['Qb'][j][i], dt).T @ wv)
                 if isinstance(x, np.ndarray) or sp.issparse(x):
-                    res.append(acc.reshape(x.shape))
+                    res.append(self._hand_out(i, acc.reshape(x.shape), ws))
                 elif s.get('pysens'):
                     res.append(complex(acc[0]) if dt is complex else float(acc[0]))      # Python scalar
                 else:
                     res.append(acc[0])                                                    # numpy scalar
             return res
     return Poly
+
+
+def strip_modes(nd):
+    """the same scenario with plain modules (a fresh object per response / sensitivity): the pristine reference"""
+    d = copy.deepcopy(nd)
+    for m in d['mods']:
+        for key in MODE_KEYS:
+            m['spec'].pop(key, None)
+    return d
+
+
+def alias_roots(data):
+    """root ids of outputs that are handed out as (views of) an input array"""
+    out = set()
+    for m in data['mods']:
+        al = m['spec'].get('alias')
+        if al:
+            out |= {o for o, a in zip(m['outs'], al) if a is not None}
+    return out
 
 
 # ----------------------------------------------------------------------------- scenario = plain data (json-able)
@@ -197,6 +356,12 @@ def build_value(v):
     arr = np.array(zs if cx else [z.real for z in zs], dtype=complex if cx else float).reshape(v['shape'])
     if v.get('order') == 'F':
         arr = np.asfortranarray(arr)
+    elif v.get('order') == 'rev' and arr.ndim >= 1:          # negatively strided view (np.nditer walks it backwards)
+        arr = np.array(arr[::-1])[::-1]
+    elif v.get('order') == 'strided' and arr.ndim >= 1:      # every second entry (last axis) of a larger caller-owned buffer
+        big = np.full(arr.shape[:-1] + (2 * arr.shape[-1] + 1,), 77.0, dtype=arr.dtype)
+        big[..., 1::2] = arr
+        arr = big[..., 1::2]
     return arr
 
 
@@ -345,7 +510,9 @@ def coq_case(pym, Poly, data, rng):
     outps = '[' + '; '.join(f'(R0 {o})' for o in outs_ref) + ']'
     call = f'finite_difference {cfg} {blit(fd["network"])}\n   {mods}\n   {inps} {outps}\n   {store0}'
     reps = '[' + '; '.join(ql([F(x0.real), F(x0.imag), F(dx), F(an), F(fdv)]) for x0, dx, an, fdv in res['tuples']) + ']'
-    sts = '[' + '; '.join(oq(r.state) for r in sc.roots) + ']'
+    skip = alias_roots(data)
+    sts = '[' + '; '.join('(Some [])' if (i in skip and isinstance(r.state, np.ndarray)) else oq(r.state)
+                          for i, r in enumerate(sc.roots)) + ']'
     ses = '[' + '; '.join(oq(r.sensitivity) for r in sc.roots) + ']'
     if res['err'] == 0:
         # seeds after the call: use_df arrays (as they are now) or the generated ones (model: the values it used)
@@ -684,6 +851,159 @@ def gen_scenario(ctx, rng):
     return data
 
 
+# ----------------------------------------------------------------------------- how modules hand out their values
+def out_modes_for(kind, mrng):
+    """(omode, sfmt) drawn for an output of the given kind"""
+    if kind == 'scal':
+        return mrng.choice((None, 'pyscal')), None
+    if is_sparse_kind(kind):
+        fmt = mrng.choice(sorted(SPARSE_FMTS))
+        mode = mrng.choice(('fresh', 'inplace', 'inplace', 'swapdata')) if fmt in INPLACE_FMTS else 'fresh'
+        return mode, fmt
+    return mrng.choice(('fresh', 'inplace', 'view', 'view_strided')), None
+
+
+def assign_modes(ctx, data, mrng):
+    """random stream: about 60% of the modules keep / share their output and sensitivity objects between calls.
+    Uses its own generator so that the scenarios themselves are the ones drawn before this was added."""
+    for m in data['mods']:
+        s = m['spec']
+        if mrng.random() < 0.4:
+            ctx.count('module:fresh-objects')
+            continue
+        pairs = [out_modes_for(k, mrng) for k in s['okind']]
+        s['omode'] = [a for a, _ in pairs]
+        s['sfmt'] = [b for _, b in pairs]
+        s['smode'] = mrng.choice(('fresh', 'buffer', 'view'))
+        for k, (a, b) in zip(s['okind'], pairs):
+            ctx.count('omode:%s%s' % (a or 'npscal', (':' + b) if b else ''))
+        ctx.count('smode:' + s['smode'])
+
+
+STRESS_VARIANTS = (
+    # name, okind, omode, sfmt, alias-how (None: computed output), input shape used for alias variants
+    [('scal-numpy', 'scal', None, None, None), ('scal-python', 'scal', 'pyscal', None, None),
+     ('0d-fresh', [], 'fresh', None, None), ('0d-inplace', [], 'inplace', None, None), ('0d-view', [], 'view', None, None),
+     ('1d-fresh', [3], 'fresh', None, None), ('1d-inplace', [3], 'inplace', None, None), ('1d-view', [2], 'view', None, None),
+     ('1d-view-strided', [3], 'view_strided', None, None),
+     ('2d-fresh', [2, 2], 'fresh', None, None), ('2d-inplace', [2, 3], 'inplace', None, None),
+     ('2d-view', [1, 2], 'view', None, None), ('2d-view-transposed', [2, 3], 'view_strided', None, None)] +
+    [('sparse-fresh-' + f, ['sparse', [2, 2] if i % 2 else [1, 3]], 'fresh', f, None) for i, f in enumerate(sorted(SPARSE_FMTS))] +
+    [('sparse-inplace-' + f, ['sparse', [2, 2] if i % 2 else [2, 1]], 'inplace', f, None) for i, f in enumerate(INPLACE_FMTS)] +
+    [('sparse-swapdata-' + f, ['sparse', [1, 2]], 'swapdata', f, None) for f in ('csr_matrix', 'csc_array', 'coo_matrix')] +
+    [('alias-same-1d', None, None, None, 'same', (3,)), ('alias-same-2d', None, None, None, 'same', (2, 2)),
+     ('alias-same-0d', None, None, None, 'same', ()), ('alias-reversed-1d', None, None, None, 'rev', (3,)),
+     ('alias-transposed-2d', None, None, None, 'T', (2, 3)), ('alias-ravel-2d', None, None, None, 'ravel', (2, 2))])
+
+
+def stress_scenarios():
+    """deterministic (the same on every seed): every way of handing out an output x real/complex x three requests
+    (the module alone; a network with the output of interest in the middle; a network whose input of interest is that
+    kept / shared object), companions, flags, seed layouts and sensitivity hand-out modes cycling"""
+    import random as _random
+    out = []
+    in_shapes = [((3,), 'C'), ((2, 2), 'F'), ((), 'C'), ((2,), 'rev'), ((3,), 'strided'), ((2, 2), 'C'), ((1, 3), 'strided')]
+    smodes = ('buffer', 'view', 'fresh')
+    comp = [v for v in STRESS_VARIANTS if v[4] is None]
+    q = 0
+    for vi, var in enumerate(STRESS_VARIANTS):
+        for cx in (False, True):
+            for version in (0, 1, 2):
+                q += 1
+                R = _random.Random(190000 + q)
+                relative = (q % 3 == 0) and not (cx and version == 2)     # |x0| of a computed complex entry is not dyadic
+                name, okind, omode, sfmt, how = var[:5]
+                shape, order = (var[5], ('C', 'F', 'strided')[q % 3] if len(var[5]) else 'C') if how else in_shapes[q % len(in_shapes)]
+                if how == 'ravel' and order != 'C':
+                    order = 'C'
+                roots = [dict(value=rand_value(R, 'arr', shape, cx, relative, order), sens=None, keep=True)]
+                n = int(np.prod(shape)) if len(shape) else 1
+                cvar = comp[(vi + 3 * version + (7 if cx else 0)) % len(comp)]
+                descs = []
+                for (nm, ok, om, sf, hw) in ((name, okind, omode, sfmt, how), cvar[:5]):
+                    if hw:
+                        P, oshape = alias_matrix(shape, hw)
+                        descs.append(dict(okind=oshape, omode=None, sfmt=None, alias=dict([('in', 0), ('how', hw)]), m=n, P=P))
+                    else:
+                        m = 1 if ok in ('scal', []) else int(np.prod(ok[1] if is_sparse_kind(ok) else ok))
+                        descs.append(dict(okind=ok, omode=om, sfmt=sf, alias=None, m=m, P=None))
+                if q % 2:
+                    descs.reverse()
+
+                def mk_module(ins, sizes, descs, quad, wrong, smode):
+                    spec = dict(c=[], A=[], Q=[], B=[], Qb=[], okind=[], cx=cx, omode=[], sfmt=[], alias=[], smode=smode,
+                                pysens=False)
+                    outs = []
+                    for d in descs:
+                        spec['okind'].append(d['okind'])
+                        spec['omode'].append(d['omode'])
+                        spec['sfmt'].append(d['sfmt'])
+                        spec['alias'].append(d['alias'])
+                        if d['P'] is not None:
+                            spec['c'].append([[0, 0] for _ in range(d['m'])])
+                            spec['A'].append([copy.deepcopy(d['P'])])
+                            spec['Q'].append([rand_mat(R, d['m'], sizes[0], cx, 0.0)])
+                        else:
+                            spec['c'].append([[R.randint(-2, 2), R.randint(-1, 1) if cx else 0] for _ in range(d['m'])])
+                            spec['A'].append([rand_mat(R, d['m'], sz, cx, 0.8) for sz in sizes])
+                            spec['Q'].append([rand_mat(R, d['m'], sz, cx, 0.5 if quad else 0.0) for sz in sizes])
+                        sens = None
+                        if (q + len(outs)) % 4 == 0 and d['okind'] != 'scal':
+                            kshape = d['okind'][1] if is_sparse_kind(d['okind']) else d['okind']
+                            sens = dict(kind='arr', shape=list(kshape), cx=cx, order='C', data=[[0.0, 0.0]] * d['m'])   # kept allocation
+                        roots.append(dict(value=None, sens=sens, keep=True))
+                        outs.append(len(roots) - 1)
+                    spec['B'] = copy.deepcopy(spec['A'])
+                    spec['Qb'] = copy.deepcopy(spec['Q'])
+                    if wrong:
+                        j = R.randrange(len(descs))
+                        a, b = R.randrange(descs[j]['m']), R.randrange(sizes[0])
+                        spec['B'][j][0][a][b] = [spec['B'][j][0][a][b][0] + R.choice((-2, -1, 1, 2)), spec['B'][j][0][a][b][1]]
+                    return dict(ins=ins, outs=outs, spec=spec, quad=quad, wrong=wrong)
+                wrong1 = (q % 5 == 0)
+                smode = 'seedview' if (how and q % 2) else smodes[q % 3]
+                mods = [mk_module([dict(root=0, index=None)], [n], descs, True, wrong1, smode)]
+                o_var = mods[0]['outs'][1 if q % 2 else 0]          # the output handed out in the way under test
+                fromsig, tosig, network = None, None, False
+                if version >= 1:
+                    network = True
+                    sizes2 = [d['m'] for d in descs]
+                    d2 = [dict(okind=[2], omode=('inplace' if q % 2 else 'fresh'), sfmt=None, alias=None, m=2, P=None)]
+                    if version == 1:
+                        d2.append(dict(okind='scal', omode=('pyscal' if q % 4 < 2 else None), sfmt=None, alias=None, m=1, P=None))
+                    mods.append(mk_module([dict(root=o, index=None) for o in mods[0]['outs']], sizes2, d2, not wrong1,
+                                          (q % 7 == 0) and not wrong1, smodes[(q + 1) % 3]))
+                    if version == 1:
+                        fromsig = [dict(root=0, index=None)]
+                        tosig = [mods[1]['outs'][0], o_var] if q % 2 else [o_var, mods[1]['outs'][-1]]
+                    else:
+                        # input of interest: the object the first module keeps / shares (never a sparse one)
+                        cand = [o for o, d in zip(mods[0]['outs'], descs) if not is_sparse_kind(d['okind'])]
+                        if not cand:
+                            continue
+                        f = o_var if o_var in cand else cand[0]
+                        fromsig = [dict(root=f, index=None)]
+                        tosig = [mods[1]['outs'][0]]
+                nq = sum(1 for m in mods if m['quad'])
+                fd = dict(network=network, fromsig=fromsig, tosig=tosig, k=1 + q % (4 if nq <= 1 else 3), relative=relative,
+                          random=(q % 4 != 1), use_df=None, keep_zero=(q % 5 != 2), verbose=(q % 11 == 0))
+                data = dict(roots=roots, mods=[dict(ins=m['ins'], outs=m['outs'], spec=m['spec']) for m in mods], fd=fd,
+                            meta=dict(wrong=[m['wrong'] for m in mods], quad=[m['quad'] for m in mods], cx=cx,
+                                      stress='%s/%s/v%d' % (name, 'complex' if cx else 'real', version)))
+                if q % 3 != 1:
+                    use = []
+                    for io, o in enumerate(tosig if tosig is not None else mods[0]['outs']):
+                        ok, cnt = out_kind(data, o)
+                        vals = [[R.randint(-8, 8) / 8.0, (R.randint(-8, 8) / 8.0) if cx else 0.0] for _ in range(cnt)]
+                        if ok == 'scal':
+                            use.append(dict(kind=('npscal', 'pyfloat')[(q + io) % 2], shape=[], data=vals, cx=cx))
+                        else:
+                            use.append(dict(kind='arr', shape=list(ok), data=vals, cx=cx, order=('C', 'F', 'strided', 'rev')[(q + io) % 4]))
+                    fd['use_df'] = use
+                out.append(data)
+    return out
+
+
 def normalise(data):
     """json data -> python-usable (coefficient entries [re, im] -> complex)"""
     d = copy.deepcopy(data)
@@ -728,6 +1048,15 @@ def run(ctx):
                 '(relative_dx, random, use_df, keep_zero_structure, verbose), fromsig/tosig choices incl. intermediate signals, '
                 'outputs of interest produced upstream of the selected sub-network, and unused signals; '
                 'dx = 2^-k (k<=6) and dyadic data: exact comparison of every tuple, every state/sensitivity and the seeds. '
+                'HOW modules hand out values is varied independently of WHAT they compute (the Coq model never sees it): '
+                'about 60% of the random modules and a deterministic block of ~210 scenarios (the same on every seed: every '
+                'mode x real/complex x {module alone, output of interest inside a network, kept/shared object as the input '
+                'of interest}) use outputs that are ONE object refreshed in place (dense, 0-d, sparse via .data[:] or a '
+                'replaced .data), views of one internal buffer (contiguous / strided / transposed), the input array itself '
+                'or a view of it (same, reversed, transposed, ravel), Python instead of numpy scalars, sparse outputs as '
+                'csr/csc/coo (matrix and array), lil, dok, dia, bsr; sensitivities handed out as kept buffers, views of one '
+                'buffer or the seed itself; use_df seeds and input states also as Fortran, reversed and every-second-entry '
+                'views of caller-owned buffers; every case is run twice on the same objects (history). '
                 'A case is non-trivial when at least one tuple is reported; distinct by scenario data')
     ctx.assumptions += [
         'np.random.rand is replaced from outside by known dyadic numbers (the routine draws its seed from it)',
@@ -742,7 +1071,15 @@ def run(ctx):
         'is produced at or after the first module using a fromsig), no fromsig is produced inside it and every fromsig '
         'has a state when it runs (other requests are counted as skipped:request-outside-subnetwork-contract); '
         'a tosig produced upstream of the sub-network is inside the contract and generated',
-        'one-level slices as module inputs (nested slices are covered for Signals by C18)']
+        'one-level slices as module inputs (nested slices are covered for Signals by C18)',
+        'object identity (modules that keep, share or alias the objects they hand out) is outside Model/FD.v: the model\'s '
+        'tuples are those of a module that builds a fresh object per call, and the correspondence and the oracle demand '
+        'exactly these from the implementation for every hand-out mode (observed, not proved). Two consequences of aliasing '
+        'that are not the routine\'s business are excluded: the state left on an output that IS a view of an input (it '
+        'follows the restored input; compared with the unperturbed response instead of the last perturbed one), and the '
+        'order of tuples for an input of interest that is a non-C-contiguous kept view (np.nditer order, oracle input)',
+        'DyadCarrier outputs are outside the routine\'s domain (TypeError on `/`; the property text lists real, complex, '
+        'scalar, array and sparse-matrix signals)']
     ctx.trusted += ['Print Assumptions: theorems over Qc are closed under the global context',
                     'the user-defined module family Poly in tools/checks/C19.py mirrors Model/FD.v poly_f / poly_vjp '
                     '(both directions are exercised by the correspondence)']
@@ -767,14 +1104,22 @@ def run(ctx):
         import traceback
         ctx.violation('impl-violates', 'finite_difference', 'the routine completes on well-formed networks', 'exception',
                       dict(where='witnesses of fixed findings', error=traceback.format_exc()[-1500:]))
+    for data in stress_scenarios():
+        datas.append((data, ('stress', data['meta']['stress'])))
+        ctx.count('stress:' + data['meta']['stress'].split('/')[0])
     n = int(os.environ.get('C19_N', 1200 if ctx.quick() else 8000))
+    import random as _random
+    mrng = _random.Random(ctx.seed * 7919 + 19)
     for t in range(n):
-        datas.append((gen_scenario(ctx, rng), ('random', t)))
+        data = gen_scenario(ctx, rng)
+        assign_modes(ctx, data, mrng)
+        datas.append((data, ('random', t)))
     checks, calls, results = [], [], []
+    srng = _random.Random(19)         # seeds handed to the deterministic block: the same on every run
     for data, lab in datas:
         nd = normalise(data)
         try:
-            expr, call, res, sc = coq_case(pym, Poly, nd, rng)
+            expr, call, res, sc = coq_case(pym, Poly, nd, srng if lab[0] == 'stress' else rng)
         except Exception as e:
             import traceback
             ctx.violation('impl-violates', 'finite_difference', 'the routine completes on well-formed networks', 'exception',
@@ -942,6 +1287,14 @@ def quotient(fp, f0, delta_re, imag, seed):
     return ti if imag else tr
 
 
+def gaps_intact(a, v):
+    """a caller-owned array handed in as every second entry of a larger buffer: the entries in between are untouched"""
+    if not (isinstance(v, dict) and v.get('order') == 'strided' and isinstance(a, np.ndarray) and a.ndim >= 1):
+        return True
+    big = a.base
+    return big is not None and bool(np.all(big[..., 0::2] == 77.0))
+
+
 def oracle(ctx, pym, Poly, results):
     import random as _random
     for data, res0 in results:
@@ -958,15 +1311,21 @@ def oracle(ctx, pym, Poly, results):
             i_first, i_last = executed(nd, fd)
             exec_mods = nd['mods'][i_first:i_last + 1]
             sc = Scenario(pym, Poly, nd)
+            # every reference below comes from PLAIN modules (a fresh object per response / sensitivity, nothing kept or
+            # shared) in scenarios that are evaluated once: how the modules under test hand out their values is not
+            # allowed to change anything the routine reports
+            nd_run, nd = nd, strip_modes(nd)
+            aliased = alias_roots(nd_run)
             # the states a plain evaluation produces
             ref = fresh_response(pym, Poly, nd, i_first, i_last)
+            lay = fresh_response(pym, Poly, nd_run, i_first, i_last)       # only the memory layout of its states is used
             r1 = run_fd(pym, sc, fd, _random.Random(1))
             # (a0) the caller's use_df arrays are not modified
             if fd.get('use_df') is not None:
                 for a, v in zip(r1['use_df'], fd['use_df']):
                     b = build_value(v)
                     if np.shape(a) != np.shape(b) or np.asarray(a).dtype != np.asarray(b).dtype or \
-                            not np.array_equal(np.asarray(a), np.asarray(b)):
+                            not np.array_equal(np.asarray(a), np.asarray(b)) or not gaps_intact(a, v):
                         bad('seed array not modified; numerical value uses the seed', 'use_df', str(b), str(a))
             # (a1) every input state — every state the executed modules do not produce — is restored exactly
             inside = {o for m in exec_mods for o in m['outs']}
@@ -977,8 +1336,13 @@ def oracle(ctx, pym, Poly, results):
                 a, b = sc.roots[i].state, ref.roots[i].state
                 same = (a is None and b is None) or (a is not None and b is not None and
                                                      np.array_equal(flat(a), flat(b)) and np.shape(a) == np.shape(b))
-                if not same:
+                if not same or not gaps_intact(a, nd['roots'][i]['value']):
                     bad('every input state is restored exactly', 'restore', str(b), str(a))
+            # an output that IS (a view of) an input follows the restored input: it holds the unperturbed response again
+            for i in aliased & inside:
+                a, b = sc.roots[i].state, ref.roots[i].state
+                if isinstance(a, np.ndarray) and not (np.shape(a) == np.shape(b) and np.array_equal(flat(a), flat(b))):
+                    bad('every input state is restored exactly', 'restore seen through an output sharing its memory', str(b), str(a))
             # (a2) no sensitivity is left on ANY signal: None; zeros only where an allocation is kept or on the base of
             #      a slice of an executed module; a stale value that was there before the call may only survive where
             #      the routine has no business (not a signal of the executed modules, not an output of interest)
@@ -1034,7 +1398,8 @@ def oracle(ctx, pym, Poly, results):
             for iin, x_ref in enumerate(inps_ref):
                 x = ref.ref(x_ref).state
                 is_arr = isinstance(x, np.ndarray)
-                for k in (nditer_order(x) if is_arr else [0]):
+                # the visiting order is numpy's, for the memory layout the modules under test hand out (oracle input)
+                for k in (nditer_order(lay.ref(x_ref).state) if is_arr else [0]):
                     x0 = x.flat[k] if is_arr else x
                     if is_arr and x0 == 0 and fd['keep_zero']:
                         continue
@@ -1067,11 +1432,17 @@ def oracle(ctx, pym, Poly, results):
                         bad('numerical value equals the seed-weighted difference quotient', 'fd-value',
                             str(ee[3]), dict(tuple_index=e, got=str(ge[3])))
                         break
+            # (b2) history: the same call once more on the same objects (the modules still hold whatever they keep between
+            #      calls; the first call must have left everything as it found it) reports the same tuples
+            r2 = run_fd(pym, sc, fd, _random.Random(1))
+            if r2['err'] != 0 or [tuple(map(str, t)) for t in r2['tuples']] != [tuple(map(str, t)) for t in r1['tuples']]:
+                bad('a second call on the same network reports the same tuples', 'history',
+                    str(r1['tuples'])[:1500], str(r2['tuples'])[:1500])
             # (c)+(d): exact extrapolation of the numerical values to dx -> 0 (polynomials of degree <= 4); the seeds are
             #          the same in every run (our np.random.rand replacement restarts)
             runs = []
             for h in range(5):
-                sch = Scenario(pym, Poly, nd)
+                sch = Scenario(pym, Poly, nd_run)
                 runs.append(run_fd(pym, sch, fd, _random.Random(1), dx=2.0 ** (-(fd['k'] + h)))['tuples'])
             if any(len(t) != len(runs[0]) for t in runs):
                 bad('tuple count independent of dx', 'count')
